@@ -75,7 +75,8 @@ if "determinism.sketch_answers_strings" not in CATALOGUE:
 
         rng = random.Random(seed)
         backing = KVStore("backing", read_latency=0.002, write_latency=0.003)
-        cache = CachedStore("cache", backing_store=backing, cache_capacity=2, eviction_policy=TTLEviction(ttl=0.05), cache_read_latency=0.0005)
+        pol = TTLEviction(ttl=0.05)
+        cache = CachedStore("cache", backing_store=backing, cache_capacity=2, eviction_policy=pol, cache_read_latency=0.0005)
 
         class Client(Entity):
             def __init__(self):
@@ -86,6 +87,10 @@ if "determinism.sketch_answers_strings" not in CATALOGUE:
                 md = event.context["metadata"]
                 if md["op"] == "put":
                     yield from cache.put(md["k"], md["v"])
+                elif md["op"] == "invalidate_all":
+                    cache.invalidate_all()
+                elif md["op"] == "inspect":
+                    self.results.append(["expired", sorted(pol.get_expired_keys()), [pol.is_expired(k) for k in sorted(cache.get_cached_keys())]])
                 else:
                     v = yield from cache.get(md["k"])
                     self.results.append([md["k"], v])
@@ -96,8 +101,13 @@ if "determinism.sketch_answers_strings" not in CATALOGUE:
         t = 0
         for i in range(40):
             t += rng.choice([1_000_000, 20_000_000, 70_000_000])
-            if rng.random() < 0.4:
+            r = rng.random()
+            if r < 0.4:
                 sim.schedule(ev(t, "Op", client, op="put", k=rng.choice(keys), v=i))
+            elif r < 0.5 or i == 12:
+                sim.schedule(ev(t, "Op", client, op="invalidate_all"))
+            elif r < 0.7:
+                sim.schedule(ev(t, "Op", client, op="inspect"))
             else:
                 sim.schedule(ev(t, "Op", client, op="get", k=rng.choice(keys)))
         return Scenario(sim, {"cache": cache, "backing": backing, "client": client}, "determinism", True, 40)
@@ -134,19 +144,21 @@ if "determinism.cache_policy_lru" not in CATALOGUE:
             for g in range(4 if large else 1):
                 rng = random.Random(f"{seed}/{g}")
                 backing = KVStore(f"backing{g}", read_latency=0.002, write_latency=0.003)
+                pol = _policy(pname, seed + g)
                 cache = CachedStore(
                     f"cache{g}",
                     backing_store=backing,
                     cache_capacity=rng.choice([2, 3, 8]),
-                    eviction_policy=_policy(pname, seed + g),
+                    eviction_policy=pol,
                     cache_read_latency=0.0005,
                     write_through=rng.random() < 0.5,
                 )
 
                 class Client(Entity):
-                    def __init__(self, name, cache):
+                    def __init__(self, name, cache, pol):
                         super().__init__(name)
                         self.cache = cache
+                        self.pol = pol
                         self.results = []
 
                     def handle_event(self, event):
@@ -155,11 +167,18 @@ if "determinism.cache_policy_lru" not in CATALOGUE:
                             yield from self.cache.put(md["k"], md["v"])
                         elif md["op"] == "flush":
                             yield from self.cache.flush()
+                        elif md["op"] == "invalidate_all":
+                            # clear-and-reuse in the middle of the run
+                            self.cache.invalidate_all()
+                        elif md["op"] == "inspect":
+                            # what the policy / cache report right now is part of the public history
+                            expired = getattr(self.pol, "get_expired_keys", None)
+                            self.results.append(["cached", sorted(self.cache.get_cached_keys()), sorted(expired()) if expired else None])
                         else:
                             v = yield from self.cache.get(md["k"])
                             self.results.append([md["k"], v])
 
-                client = Client(f"client{g}", cache)
+                client = Client(f"client{g}", cache, pol)
                 entities += [backing, cache, client]
                 comps.update({f"cache{g}": cache, f"backing{g}": backing, f"client{g}": client})
                 keys = [f"user:{i}:profile" for i in range(rng.choice([70, 90, 120]) if large else rng.choice([6, 12, 80]))]
@@ -178,6 +197,10 @@ if "determinism.cache_policy_lru" not in CATALOGUE:
                         scheduled.append((t, client, dict(op="put", k=pick(), v=i)))
                     elif r < 0.38:
                         scheduled.append((t, client, dict(op="flush")))
+                    elif r < 0.395:
+                        scheduled.append((t, client, dict(op="invalidate_all")))
+                    elif r < 0.45:
+                        scheduled.append((t, client, dict(op="inspect")))
                     else:
                         scheduled.append((t, client, dict(op="get", k=pick())))
             sim = make_sim(entities, 60.0)
@@ -347,3 +370,53 @@ if "determinism.lb_keyless_consistent_hash" not in CATALOGUE:
             t += rng.choice([10_000_000, 40_000_000, 90_000_000])
             sim.schedule(ev(t, "Go", w, s=rng.randrange(4), k=f"k{rng.randrange(3)}", v=1 + i % 3))
         return Scenario(sim, {"net": net, "writer": w, **{s.name: s for s in stores}}, "determinism", True, 40)
+
+
+if "determinism.seed_zero_components" not in CATALOGUE:
+
+    @scenario("determinism.seed_zero_components", "determinism")
+    def seed_zero_components(seed, params):
+        """0 is a legal seed.  Every library object with a private `seed=` stream is built with seed 0 (the
+        scenario seed only shapes the workload) and sampled from handlers; the samples are public history."""
+        from happysimulator.components.datastore import eviction_policies as ep
+        from happysimulator.components.datastore.sharded_store import ConsistentHashSharding
+        from happysimulator.distributions.uniform import UniformDistribution
+        from happysimulator.distributions.zipf import ZipfDistribution
+        from happysimulator.sketching import ReservoirSampler
+
+        edge = 0
+        rng = random.Random(seed)
+        zipf = ZipfDistribution(list(range(50)), s=1.1, seed=edge)
+        uni = UniformDistribution(["a", "b", "c", "d"], seed=edge)
+        res = ReservoirSampler(size=5, seed=edge)
+        rnd_pol = ep.RandomEviction(seed=edge)
+        smp_pol = ep.SampledLRUEviction(sample_size=3, seed=edge)
+        shard = ConsistentHashSharding(virtual_nodes=8, seed=edge)
+
+        class Sampler(Entity):
+            def __init__(self):
+                super().__init__("sampler")
+                self.samples = []
+                self.evicted = []
+
+            def handle_event(self, event):
+                i = event.context["metadata"]["i"]
+                self.samples.append([zipf.sample(), uni.sample()])
+                res.add(i)
+                for pol in (rnd_pol, smp_pol):
+                    pol.on_insert(f"k{i}")
+                    if i % 3 == 2:
+                        self.evicted.append(pol.evict())
+                return None
+
+        class View:
+            @property
+            def state(self):
+                return {"reservoir": list(res.sample()), "shards": [shard.get_shard(f"user-{i}", 5) for i in range(20)]}
+
+        sampler = Sampler()
+        sim = make_sim([sampler], 10.0)
+        n = rng.choice([40, 80])
+        for i in range(n):
+            sim.schedule(ev(i * 1000, "Tick", sampler, i=i))
+        return Scenario(sim, {"sampler": sampler, "view": View()}, "determinism", True, n)
